@@ -87,6 +87,14 @@ def _script_files():
     return {"src/tool.py": py, **_files([("ts", "print", 6, 0)])}
 
 
+def _srp_loc_files():
+    """Classes with few methods but many lines: only max_loc decides."""
+    body = ["class Ledger9:", "    def __init__(self, v9):", "        self.v9 = v9", "", "    def settle9(self, p9):"]
+    body += [f"        self.v9 = self.v9 + p9 + {i % 3}" for i in range(45)] + ["        return self.v9", ""]
+    ts = ["class Ledger8 {", "    settle8(p8: number) {"] + [f"        this.v8 = this.v8 + p8 + {i % 3};" for i in range(25)] + ["        return this.v8;", "    }", "}", ""]
+    return {"src/loc.py": "\n".join(body), "src/loc.ts": "\n".join(ts)}
+
+
 def _srp_kw_files():
     return {"src/kw.py": "\n".join(["class ReportManager:", "    def __init__(self, v):", "        self.v = v", "", "    def run(self, p):", "        self.v = p", "        return self.v", ""])}
 
@@ -130,7 +138,7 @@ LINTERS = {
     "nesting": dict(cmd="nesting", sections=["nesting"], files=lambda: _files([("py", "nesting", 1, 0), ("ts", "nesting", 2, 1), ("rs", "nesting", 3, 0), ("py", "nesting", 4, 1)]),
                     knobs=[("max_nesting_depth", [1, 2, 3, 4, 5, 6, 7, 8, 9])], cli={"max_nesting_depth": "--max-depth"},
                     invalid=[("max_nesting_depth", 0), ("max_nesting_depth", -2)], lang_knob="max_nesting_depth"),
-    "srp": dict(cmd="srp", sections=["srp"], files=lambda: {**_files([("py", "srp", 1, 0), ("ts", "srp", 2, 1), ("rs", "srp", 3, 2), ("py", "srp", 4, 2)]), **_srp_kw_files()},
+    "srp": dict(cmd="srp", sections=["srp"], files=lambda: {**_files([("py", "srp", 1, 0), ("ts", "srp", 2, 1), ("rs", "srp", 3, 2), ("py", "srp", 4, 2)]), **_srp_kw_files(), **_srp_loc_files()},
                 knobs=[("max_methods", [2, 5, 7, 8, 9, 10, 11, 15]), ("max_loc", [3, 10, 20, 30, 40, 60, 200]), ("check_keywords", [True, False])],
                 cli={"max_methods": "--max-methods", "max_loc": "--max-loc"}, invalid=[("max_methods", 0), ("max_loc", -1)], lang_knob="max_methods"),
     "magic-numbers": dict(cmd="magic-numbers", sections=["magic-numbers"], files=lambda: _files([("py", "magic", 1, 0), ("ts", "magic", 2, 1), ("rs", "magic", 3, 0), ("py", "magic", 4, 2)]),
@@ -233,11 +241,11 @@ def install(proj, carrier: str, cfg: dict, spelling: str):
         proj.write("pyproject.toml", '[project]\nname = "scratch"\nversion = "0"\n\n' + to_toml(cfg))
         return []
     if carrier == "cfg-yaml":
-        proj.write("conf/custom.yaml", to_yaml(cfg) if cfg else "{}\n")
-        return ["--config", "conf/custom.yaml"]
+        proj.write("custom-config.yaml", to_yaml(cfg) if cfg else "{}\n")
+        return ["--config", "custom-config.yaml"]
     if carrier == "cfg-json":
-        proj.write("conf/custom.json", json.dumps(cfg, indent=1))
-        return ["--config", "conf/custom.json"]
+        proj.write("custom-config.json", json.dumps(cfg, indent=1))
+        return ["--config", "custom-config.json"]
     raise ValueError(carrier)
 
 
@@ -413,8 +421,8 @@ def check_invalid(case) -> Case:
             cfg_args = install(p, case["carrier"], full_cfg(name, section, {case["key"]: case["value"]}), case["spelling"])
         else:
             broken = {"yaml": (".thailint.yaml", "nesting: [unclosed\n  x: {\n"), "json": (".thailint.json", '{"nesting": {"max_nesting_depth": 3,}'),
-                      "pyproject": ("pyproject.toml", "[tool.thailint\nnesting = {\n"), "cfg-yaml": ("conf/custom.yaml", "a: b: c: [\n"),
-                      "cfg-json": ("conf/custom.json", "{not json")}[case["carrier"]]
+                      "pyproject": ("pyproject.toml", "[tool.thailint\nnesting = {\n"), "cfg-yaml": ("custom-config.yaml", "a: b: c: [\n"),
+                      "cfg-json": ("custom-config.json", "{not json")}[case["carrier"]]
             p.write(*broken)
             cfg_args = ["--config", broken[0]] if case["carrier"].startswith("cfg-") else []
         r = runner.run_cli([L["cmd"], *cfg_args, "--format", "json", "."], cwd=p.root)
